@@ -56,7 +56,7 @@ def sev(start, dur, vel, tick, total, n, pre=None, k=None):
 
 class C20(Property):
     id = "C20"
-    lean_module = "RosuModel.Props.C20Full"   # imports Props/C20.lean; both in namespace Rosu.C20
+    lean_module = "RosuModel.Props.C20Full"   # imports Props/C20Exact.lean (→ Props/C20.lean) and Props/C20Ieee.lean; all in namespace Rosu.C20
     theorem_modules = ['RosuModel.Props.C20Exact', 'RosuModel.Props.C20Ieee']   # files whose top-level theorems are all audited
     namespace = "Rosu.C20"
     design_ref = "5.20"
@@ -80,7 +80,9 @@ class C20(Property):
         "ticks_chronological_exact, stream_chronological_exact and stream_ordering_exact (for n >= 1, len > 0, span duration > 0, velocity >= 0: the collected list IS "
         "head :: (per span: c ticks of that span in strictly increasing time ++ repeat unless last) ++ [last tick, tail]; without the legacy last tick it is "
         "strictly increasing in time head < span 0 < ... < span n-1 < tail; head < last tick <= tail). The legacy last tick is NOT always after the final span's "
-        "ticks (proved example). None of this is proved for IEEE f64 (see partial_theorems). The older OrderedFieldLaws versions (Props/C20.lean part 2) are kept. "
+        "ticks (proved example). None of the exact-arithmetic part is proved for IEEE f64 (see partial_theorems); OrderedFieldLaws Float is refuted in the kernel (orderedFieldLaws_float_false: lt_of_not_le fails on NaN), "
+        "while its pure order fields are theorems of the driver's Float and give the strict min-distance bound for IEEE doubles (ticks_respect_min_distance_strict_float, Props/C20Ieee.lean: every tick distance is a "
+        "number, <= len and < len − 10·velocity when that bound is a number). The older OrderedFieldLaws versions (Props/C20.lean part 2) are kept. "
         "Model tied to the code on every run: real SliderEventsIter vs model, bit-for-bit on all event fields and on the buffer left behind; an "
         "eager Rust reference written from the property text judges the implementation.")
     technique = "Lean 4 proof (induction over spans / stack discipline) + bit-exact differential correspondence on the public iterator"
@@ -97,14 +99,22 @@ class C20(Property):
         "tailEvent_exact", "lastTickEvent_exact", "ticks_at_multiples_exact", "ticks_respect_min_distance_exact", "tickDists_facts",
         "ticks_chronological_exact", "spanEvents_chrono", "spansFrom_chrono", "stream_chronological_exact", "stream_exists_exact",
         "runUse_exact", "stream_ordering_exact", "stream_ticks_exact", "laws_rat", "laws_real",
+        # Props/C20Ieee.lean: the order pieces of OrderedFieldLaws that hold of IEEE doubles; the strict min-distance bound for Float; the structure itself refuted
+        "ticks_respect_min_distance_strict_ieee", "ticks_respect_min_distance_strict_float", "orderedFieldLaws_order_float",
+        "lt_of_not_le_float_false", "orderedFieldLaws_float_false",
     ]
     partial_theorems = {
         "ticks_at_multiples / ticks_at_multiples_exact / stream_ticks_exact":
             "exact arithmetic only (ExactNum: instances Rat, reals), about spanTickDists / the events collect returns; in IEEE f64 the k-th distance is the "
-            "k-fold ROUNDED sum ((t+t)+t)+... (checked on the implementation to lie within (k+1) ulp of the exact multiple, deviation reported); not proved for IEEE",
+            "k-fold ROUNDED sum ((t+t)+t)+... (checked on the implementation to lie within (k+1) ulp of the exact multiple, deviation reported); not proved for IEEE "
+            "(tick positions at exact multiples need the field laws add_mul / add_assoc, which rounding breaks; OrderedFieldLaws Float is refuted: orderedFieldLaws_float_false)",
         "ticks_respect_min_distance_strict / ticks_respect_min_distance_exact":
-            "exact arithmetic only (needs a total order, false with NaN); the structural ticks_respect_min_distance states both guards exactly as the code tests "
-            "them and holds for IEEE",
+            "the generic forms need a total order (OrderedFieldLaws.lt_of_not_le, false with NaN); the structural ticks_respect_min_distance states both guards exactly as the code tests "
+            "them and holds for IEEE. NOW ALSO FOR IEEE DOUBLES (Props/C20Ieee.lean; Lean 4.33's Float is a structure over the logical model Float.Model and the comparisons reduce in the kernel; order theory of "
+            "Lemmas/FloatModelCompare.lean): ticks_respect_min_distance_strict_ieee / ticks_respect_min_distance_strict_float — every tick distance is a number, <= len, and STRICTLY below len − 10·velocity whenever "
+            "that bound is not NaN (the one hypothesis left; if the bound is NaN the guard excludes nothing). orderedFieldLaws_order_float: the order fields not_le_of_lt, lt_trans hold of Float unconditionally, "
+            "lt_of_not_le on numbers; lt_of_not_le_float_false / orderedFieldLaws_float_false: OrderedFieldLaws Float is unsatisfiable (NaN), so every theorem taking it is about exact arithmetic and says "
+            "nothing about the running code (ExactNum likewise has a `no NaN` field that Float's NaN violates; that refutation is not stated as a theorem)",
         "ticks_chronological / ticks_chronological_exact / stream_chronological_exact / stream_ordering_exact":
             "exact arithmetic only, for n >= 1, len > 0, span duration > 0, velocity >= 0 (with a negative velocity a tick may sit exactly on the span end): strict "
             "order inside each span and across the stream without the last tick, head < last tick <= tail. IEEE rounding can make neighbouring tick times equal "
@@ -123,7 +133,9 @@ class C20(Property):
         "Lean 4.33.0 kernel",
         "axioms: at most propext, Classical.choice, Quot.sound (audited per theorem with #print axioms)",
         "hand-written model Model/SliderEvents.lean (generic over Model/Scalar.lean) tied to /repo by the differential run of this check",
-        "IEEE-754 semantics of + - * / and comparisons, f64::min/max/clamp, i32→f64 (Lean Float = C double vs Rust f64; compared bit-for-bit each run)",
+        "IEEE-754 semantics of + - * / and comparisons, f64::min/max/clamp, i32→f64: a theorem about Float is a theorem about Lean 4.33's logical float model Float.Model (Float is a structure over it; these operations "
+        "reduce in the kernel); that the compiled @[extern] C double operations agree with that model is part of Lean's own trusted code base and is compared with Rust f64 bit for bit (codec requests fop64 / fop32 "
+        "<add|sub|mul|div|sqrt|abs|neg|cmp|minmax>; every request of this run)",
         "Vec::{push,pop,reverse,clear} modelled as a list kept back-first",
     ]
     assumptions = [
@@ -131,7 +143,7 @@ class C20(Property):
         "domain: span count >= 1 (property) — span count 0 is modelled and compared but not judged; negative span counts make the real code loop ~2^32 times / overflow and are never sent",
         "domain: length >= 0 or NaN — a negative total distance makes SliderEventsIter::new panic in f64::clamp (min > max); the model reproduces the panic and it is compared, not judged",
         "generators keep len/tickDist <= 1e5 per span and <= 3e5 events per request: with a tiny positive tick distance the real while loop runs len/tickDist turns (unbounded in practice) and cannot be interrupted in-process",
-        "law-dependent theorems hold in exact arithmetic only (DESIGN.md 3.3; hypothesis structure ExactNum, which IEEE f64 does not satisfy: rounding, NaN, overflow); the implementation-level oracle computes the reference with the legacy expressions (bit-for-bit) and reports the deviation from the exact multiples and from the alternative closed forms (4 ulp at operand magnitude)",
+        "law-dependent theorems hold in exact arithmetic only (DESIGN.md 3.3; hypothesis structure ExactNum, which IEEE f64 does not satisfy: rounding, NaN, overflow — for the older OrderedFieldLaws this is the kernel-checked orderedFieldLaws_float_false); the implementation-level oracle computes the reference with the legacy expressions (bit-for-bit) and reports the deviation from the exact multiples and from the alternative closed forms (4 ulp at operand magnitude)",
     ]
     nontrivial_rule = ("grid span counts 0..6 x tick/length ratios (0, negative, >len, NaN, inf, fractions) x lengths (incl. > MAX_LEN, 0, inf, NaN, negative) x "
                        "velocities (incl. 0, NaN) x durations x starts; random playable parameters; hostile bit patterns; sequences of 2..5 iterators on one "
